@@ -145,8 +145,17 @@ def run_harness(crate, harness, timeout_s, mem_gb, outdir, playback=False, slot=
     covers = [c for c in res["checks"] if c.get("category") == "cover"]
     res["n_checks"] = len(res["checks"])
     res["n_failed"] = len(failed)
+    res["n_discharged"] = len([c for c in res["checks"] if c["status"].upper() in ("SUCCESS", "SATISFIED", "UNREACHABLE")])
+    fns = set()
+    for c in res["checks"]:
+        f = ((c.get("location") or {}).get("file") or "")
+        if c.get("function") and ("/" in f) and not f.startswith("/home/runner") and "/verif/harness" not in f and not f.startswith("src/"):
+            fns.add(c["function"])
+    res["functions"] = sorted(fns)
     res["covers_total"] = len(covers)
     res["covers_sat"] = len([c for c in covers if c["status"].upper() == "SATISFIED"])
+    # keep only what triage needs (a 256-arm dispatch harness carries > 6000 checks)
+    res["checks"] = failed + undet[:20]
     if failed:
         res["status"] = "failed"
     elif undet:
